@@ -128,9 +128,11 @@ CLAIMS["C16"] = (
 CLAIMS["C04"] = (
     "Symbolic execution of the real GameSpy code on reference replies with the solver deciding every obligation for all "
     "ip/port values: GameSpy 2 whole query (key/value block, player table, unused entries exact), GameSpy 3 raw-variables "
-    "query and team-section parser, GameSpy 1 per-player grouping. Partial: the whole-query GameSpy 1 and GameSpy 3 "
-    "player-section harnesses exist but only fit the thorough tier's time cap (or exceed it).",
-    "Trusted: hooks H3-H5 (map model), listed stubs. Concrete reply texts. See bounds.outside for what is not reached.",
+    "query and team-section parser, GameSpy 1 per-player grouping for every maxplayers value, and (thorough) the GameSpy 1 "
+    "whole query without players: typed fields and the AdminName / admin fallback. Partial: GameSpy 1 with players through the "
+    "whole query and the GameSpy 3 player sections are not decided (no harness finishes).",
+    "Trusted: hooks H3-H5 (map model), listed stubs incl. the ASCII str::to_lowercase replacement (validated natively). "
+    "Concrete reply texts. See bounds.outside for what is not reached.",
     "DESIGN.md §4 C04")
 
 CLAIMS["C06"] = (
